@@ -1187,6 +1187,172 @@ def hetero_cells(chk):
                         chk.violation(cell, "; ".join(bad)[:400] + f" | A={A.tolist()}", {"A": A.tolist(), "jit": jit})
 
 
+# ------------------------------------------------------------------------------------------- ConstantMul override
+CMUL_METHODS = (None, "cholesky", "symeig", "svd", "lanczos", "pinverse", "diagonalization", "pivoted_cholesky")
+CMUL_PAIRS = ((None, None), ("cholesky", "cholesky"), ("symeig", "symeig"), ("svd", "svd"), (None, "pinverse"))
+
+
+def _cmul_bases(rng, dtype, batch):
+    """(name, build() -> base operator, dense base matrix, hook kind or None, factor sizes)."""
+    from linear_operator.operators import (AddedDiagLinearOperator, DenseLinearOperator, DiagLinearOperator,
+                                           KroneckerProductLinearOperator, ToeplitzLinearOperator)
+    batch = tuple(batch)
+    A = C.psd_int(rng, batch, 3, dtype)
+    K1, K2 = C.psd_int(rng, batch, 2, dtype), C.psd_int(rng, batch, 3, dtype)
+    for _ in range(60):
+        col = torch.cat([C.ri(rng, (*batch, 1), 5, 7, dtype), C.ri(rng, (*batch, 2), -1, 1, dtype)], -1)
+        T = ToeplitzLinearOperator(col).to_dense()
+        if _gap_ok(T, thr=0.03):
+            break
+    for _ in range(60):
+        B, d = C.psd_int(rng, batch, 3, dtype), C.ri(rng, (*batch, 3), 1, 4, dtype)
+        if _gap_ok(B + torch.diag_embed(d), thr=0.03):
+            break
+    kd = torch.stack([torch.kron(a, b) for a, b in zip(K1.reshape(-1, 2, 2), K2.reshape(-1, 3, 3))]).reshape(*batch, 6, 6)
+    for _ in range(60):
+        if _gap_ok(kd, thr=0.02):
+            break
+        K1, K2 = C.psd_int(rng, batch, 2, dtype), C.psd_int(rng, batch, 3, dtype)
+        kd = torch.stack([torch.kron(a, b) for a, b in zip(K1.reshape(-1, 2, 2), K2.reshape(-1, 3, 3))]).reshape(*batch, 6, 6)
+    return [
+        ("Dense", lambda: DenseLinearOperator(A.clone()), A, "base", [3]),
+        ("Kronecker", lambda: KroneckerProductLinearOperator(DenseLinearOperator(K1.clone()), DenseLinearOperator(K2.clone())), kd, "kron", [2, 3]),
+        ("Toeplitz", lambda: ToeplitzLinearOperator(col.clone()), T, "base", [3]),
+        ("AddedDiag", lambda: AddedDiagLinearOperator(DenseLinearOperator(B.clone()), DiagLinearOperator(d.clone())), B + torch.diag_embed(d), None, [3]),
+    ]
+
+
+def constmul_cells(chk, lines, pending):
+    """`ConstantMulLinearOperator.root_inv_decomposition` (override since /repo c4c33aa) and its pairing with the
+    `root_decomposition` override.  Positive constants (0-d, and batch constants entered as (b,1,1) through `op * c`):
+    R Rᵀ against the dense inverse of c·A (`constMul_rootInv`), R against c^{-1/2}·R₀ of a fresh base (`constMulRoot`),
+    outcome string against the Lean selection model (`cmul …` = `constMulDelegate`), memoisation, and
+    max|Lᵀ R − I| with the root of the same object (`constMul_roots_paired`).  Negative / mixed-sign constants: the
+    base-class path must be taken (outcome string vs model with pos=0; the property demands nothing of a non-PSD operator)."""
+    from linear_operator.operators import ConstantMulLinearOperator, RootLinearOperator
+    rng = chk.rng
+    dtype = torch.float64
+    quick = chk.tier == "quick"
+    for batch in ((), (2,)):
+        bl = "b=" + ("()" if not batch else "(" + ",".join(map(str, batch)) + ",)")
+        for bname, build, A, kind, ns in _cmul_bases(rng, dtype, batch):
+            N = A.shape[-1]
+            consts = [("scalar+", torch.tensor(float(rng.choice((2, 3, 5))), dtype=dtype)),
+                      ("scalar-", torch.tensor(-float(rng.choice((2, 3))), dtype=dtype))]
+            if batch:
+                consts += [("batch+", torch.tensor([float(rng.choice((2, 3))), float(rng.choice((5, 7)))], dtype=dtype)),
+                           ("batch±", torch.tensor([float(rng.choice((2, 3))), -float(rng.choice((2, 3)))], dtype=dtype))]
+            for cname, cval in consts:
+                pos = bool((cval > 0).all())
+
+                def mk(build=build, cval=cval, cname=cname):
+                    base = build()
+                    if cname.startswith("batch"):
+                        op = base * cval.clone().view(-1, 1, 1)            # (b,1,1) constant through LinearOperator.__mul__
+                    else:
+                        op = ConstantMulLinearOperator(base, cval.clone())
+                    if type(op) is not ConstantMulLinearOperator:          # classes with their own _mul_constant (AddedDiag)
+                        op = ConstantMulLinearOperator(build(), cval.clone())
+                    return op
+                cA = A * (cval.view(-1, 1, 1) if cval.dim() else cval)
+                methods = CMUL_METHODS if pos else (None, "cholesky", "symeig", "svd")
+                for method in methods:
+                    grid = [(800, "default")] + ([(0, "0")] if method in (None, "pinverse", "diagonalization") and pos else [])
+                    for mcs, ml in grid:
+                        if quick and ml == "0" and bname in ("Toeplitz", "AddedDiag") and not batch:
+                            continue
+                        path = eff_path("rootinv", method, N, mcs, True, bname)
+                        cell = f"C06/cmul/{bname}[{bl}]/const={cname}/rootinv:{mstr(method)}/mcs={ml}/path={path}"
+                        seed = rng.randrange(2 ** 31)
+                        payload = {"cmul": 1, "base": bname, "batch": list(batch), "const": cval.tolist(), "method": method, "mcs": mcs,
+                                   "A": A.tolist(), "seed": seed}
+                        chk.case(f"{cell} seed={seed} c={cval.tolist()} A={A.flatten().tolist()[:40]}", nontrivial=True)
+                        chk.count("cmul:rootinv")
+                        chk.count(f"cmul:const={cname}")
+                        it = type("It", (), {"build": staticmethod(mk)})
+                        r = run_op(it, "rootinv", method, Env(mcs, 100, True, seed))
+                        fails = []
+                        if pos:
+                            if method == "pivoted_cholesky":
+                                if r["err"] is None:
+                                    fails.append("root_inv_decomposition(method='pivoted_cholesky') did not raise")
+                            elif r["err"] is not None:
+                                fails.append(f"raised {r['err']}")
+                            else:
+                                res = r["res"]
+                                R = dense_of(res.root)
+                                if R.shape[:-2] != cA.shape[:-2] or R.shape[-2] != N:
+                                    fails.append(f"inverse root has shape {tuple(R.shape)} for an operator of shape {tuple(cA.shape)}")
+                                else:
+                                    e = relerr(R @ R.mT, torch.linalg.inv(cA))
+                                    lz = any(str(t).startswith("lanczos") for t in (r["log"] or []))   # the log decides the tolerance
+                                    tol = tol_for(dtype, "lanczos" if lz else path, inverse=True)
+                                    chk.count("cmul:recon")
+                                    if not e <= tol:
+                                        fails.append(f"R Rᵀ differs from (cA)⁻¹ by {e:.3g} (rel, tol {tol:.1g})")
+                                    # model: R = c^{-1/2}·R₀ with R₀ the inverse root of a fresh base (same settings, same torch seed)
+                                    r0 = run_op(type("It0", (), {"build": staticmethod(build)}), "rootinv", method, Env(mcs, 100, True, seed))
+                                    if r0["err"] is None and not lz and path not in ("lanczos", "pinverse-lanczos"):
+                                        R0 = dense_of(r0["res"].root)
+                                        sc = (cval.view(-1, 1, 1) if cval.dim() else cval) ** -0.5
+                                        em = relerr(R, sc * R0)
+                                        chk.count("cmul:scaled-base-root")
+                                        if not em <= 1e-12:
+                                            fails.append(f"R differs from c^(-1/2)·R₀ (inverse root of the base) by {em:.3g}")
+                                    if not isinstance(res, RootLinearOperator):
+                                        fails.append(f"result is a {type(res).__name__}, not a RootLinearOperator")
+                                    # memoisation: same arguments -> the very same object
+                                    op = r["op"]
+                                    with Env(mcs, 100, True, seed):
+                                        again = op.root_inv_decomposition(method=method) if method is not None else op.root_inv_decomposition()
+                                    if again is not res:
+                                        fails.append("second call with the same arguments is not served from the cache")
+                        if fails:
+                            chk.violation(cell, "; ".join(fails)[:400] + f" | c={cval.tolist()} A={A.reshape(-1, N, N)[0].tolist()}", payload)
+                        if kind is not None:
+                            cok = 1 if pos else 0
+                            lines.append(f"cmul rootinv {kind} {int(pos)} {','.join(map(str, ns))} {mcs} 100 1 {mstr(method)} {cok} 000")
+                            pending.append((cell, impl_outcome("rootinv", r), bool(fails), payload))
+                if not pos:
+                    continue
+                # pairing with root_decomposition of the same object (both orders of the two calls)
+                for mL, mR in CMUL_PAIRS:
+                    for order in ("root-first", "rootinv-first"):
+                        if quick and order == "rootinv-first" and (mL, mR) not in ((None, None), (None, "pinverse")):
+                            continue
+                        cell = f"C06/cmul/{bname}[{bl}]/const={cname}/paired/root:{mstr(mL)}+rootinv:{mstr(mR)}/{order}"
+                        seed = rng.randrange(2 ** 31)
+                        payload = {"cmul": 2, "base": bname, "batch": list(batch), "const": cval.tolist(), "mL": mL, "mR": mR, "order": order,
+                                   "A": A.tolist(), "seed": seed}
+                        chk.case(f"{cell} seed={seed} c={cval.tolist()} A={A.flatten().tolist()[:40]}", nontrivial=True)
+                        chk.count("cmul:paired")
+                        try:
+                            with Env(800, 100, True, seed):
+                                op = mk()
+                                fR = lambda: op.root_inv_decomposition(method=mR) if mR is not None else op.root_inv_decomposition()
+                                fL = lambda: op.root_decomposition(method=mL) if mL is not None else op.root_decomposition()
+                                if order == "root-first":
+                                    L, R = fL(), fR()
+                                else:
+                                    R, L = fR(), fL()
+                                L, R = dense_of(L.root), dense_of(R.root)
+                        except Exception as e:
+                            chk.violation(cell, f"raised {type(e).__name__}: {e}"[:300], payload)
+                            continue
+                        eye = torch.eye(N, dtype=dtype)
+                        if L.shape != R.shape:
+                            chk.violation(cell, f"root {tuple(L.shape)} and inverse root {tuple(R.shape)} have different shapes", payload)
+                            continue
+                        e = float((L.mT @ R - eye).abs().max())
+                        e2 = relerr(L @ L.mT, cA)
+                        if not (e <= 1e-9 and e2 <= 1e-9):
+                            chk.violation(cell, f"max|Lᵀ R − I| = {e:.3g} (root and inverse root of one ConstantMul operator are not mutual "
+                                          f"inverses), |L Lᵀ − cA| = {e2:.3g} | c={cval.tolist()} A={A.reshape(-1, N, N)[0].tolist()}", payload)
+                        else:
+                            chk.traces_validated += 1
+
+
+
 def _spec_post_residuals(A, cands, tv):
     """Σ_batch Σ_columns ‖A (R Rᵀ t) − t‖₂ for every candidate, straight from the definition (float64, per member)."""
     P = cands.shape[0]
@@ -1419,6 +1585,7 @@ def run(chk, only=None):
     diag_svd_cells(chk)
     hetero_cells(chk)
     postprocess_cells(chk, lines, pending)
+    constmul_cells(chk, lines, pending)
     quick = chk.tier == "quick"
     only = only or os.environ.get("C06_ONLY")          # development aid: restrict to instances whose name contains …
     for pi, (dtype, batch, n, names, do_wrap) in enumerate(build_plan(chk)):
